@@ -45,10 +45,20 @@ def _stmt_calls(ev) -> List[ast.Call]:
     return [c for c in ast.walk(st) if isinstance(c, ast.Call)]
 
 
-def write_facts(fi, writer: str = WRITER) -> List[Dict[str, Any]]:
-    """One record per (write call, path): how the written table was obtained on that path."""
+def _table_arg(call: ast.Call, argpos: int, kwname: Optional[str]) -> Optional[ast.AST]:
+    if len(call.args) > argpos and not any(isinstance(a, ast.Starred) for a in call.args[: argpos + 1]):
+        return call.args[argpos]
+    for k in call.keywords:
+        if kwname is not None and k.arg == kwname:
+            return k.value
+    return None
+
+
+def write_facts(fi, writer: str = WRITER, argpos: int = 0, kwname: Optional[str] = "df") -> List[Dict[str, Any]]:
+    """One record per (write call, path): how the written table was obtained on that path.  `writer` is write_pdb or a helper of
+    the module that hands its parameter number `argpos` (keyword `kwname`) on to write_pdb."""
     out: List[Dict[str, Any]] = []
-    calls = [c for c in astq.walk_no_nested(fi.node) if isinstance(c, ast.Call) and _callee(c) == writer and c.args]
+    calls = [c for c in astq.walk_no_nested(fi.node) if isinstance(c, ast.Call) and _callee(c) == writer and _table_arg(c, argpos, kwname) is not None]
     for call in calls:
         loop = _innermost_loop(fi.node, call)
         block = loop.body if loop is not None else fi.node.body
@@ -79,13 +89,31 @@ def write_facts(fi, writer: str = WRITER) -> List[Dict[str, Any]]:
                 ds = [d for d in defs.get(name, []) if d[0] < before]
                 return ds[-1] if ds else None
 
+            # what the path knows about conditions: outcomes of its tests, and of names that store such a condition
+            truth: Dict[str, bool] = {}
+            for k, ev in enumerate(events[: k_call + 1]):
+                if ev[0] == "test":
+                    truth[norm(ev[3])] = bool(ev[2])
+            for nm, ds in defs.items():
+                for k_def, val in ds:
+                    if norm(val) in truth:
+                        truth[nm] = truth[norm(val)]
+                    elif isinstance(val, ast.UnaryOp) and isinstance(val.op, ast.Not) and norm(val.operand) in truth:
+                        truth[nm] = not truth[norm(val.operand)]
             rec: Dict[str, Any] = {"call": call, "loop": loop, "events": events, "how": None, "table": None, "tested": None, "tagged": None, "carried": None}
             # resolve the written table: through fit_to_pdb(...), `.copy()` and plain names, along this path
-            e: ast.AST = call.args[0]
+            e: ast.AST = _table_arg(call, argpos, kwname)
             at = k_call
             fitted = False
             born = -1
             for _ in range(12):
+                if isinstance(e, ast.IfExp):
+                    t = norm(e.test)
+                    neg = isinstance(e.test, ast.UnaryOp) and isinstance(e.test.op, ast.Not) and norm(e.test.operand) in truth
+                    if t in truth or neg:
+                        e = e.body if (truth[t] if t in truth else not truth[norm(e.test.operand)]) else e.orelse  # the branch this path takes
+                        continue
+                    break
                 if isinstance(e, ast.Call) and _callee(e) == FITTER and len(e.args) == 1:
                     fitted, e = True, e.args[0]
                     continue
@@ -132,6 +160,20 @@ def check_fit_before_write(chk, entries, rule: str = "fit-before-write") -> bool
         fis = [fi] + [g for qq, g in sorted(repo.module(module).funcs.items()) if g is not fi and any(isinstance(c, ast.Call) and _callee(c) == WRITER for c in astq.walk_no_nested(g.node))]
         try:
             facts = [(g, r) for g in fis for r in write_facts(g)]
+            # a helper that writes the table it is handed: what matters is what its callers hand it (followed for two levels)
+            for _ in range(2):
+                grown: List[Tuple[Any, Dict[str, Any]]] = []
+                for g, r in facts:
+                    params = [a.arg for a in g.node.args.args]
+                    if g is not fi and r["how"] == "raw" and not r["tested"] and r["table"] in params:
+                        pos = params.index(r["table"]) - (1 if params and params[0] in ("self", "cls") else 0)
+                        callers = [(h, r2) for h in [fi] + [x for x in repo.module(module).funcs.values() if x is not fi and x is not g] for r2 in write_facts(h, g.node.name, pos, r["table"])]
+                        # no caller in the module: the helper is dead, or it was inlined into its caller by the source model
+                        # (sa/inline.py) and is read there; a function that writes what it is handed is not itself at fault
+                        grown += callers
+                        continue
+                    grown.append((g, r))
+                facts = grown
         except AnalysisError as ex:
             chk.error(rule, fi.where, f"write paths of {module}.{q} not enumerable: {ex}")
             ok_all = False
